@@ -243,7 +243,7 @@ const (
 // restoreGhosts gives the loop ghosts of an enclosing loop their values back when an inner loop is left.
 func restoreGhosts(saved map[string]string, k func(*State)) func(*State) {
 	return func(st *State) {
-		for _, n := range []string{"visited", "done", "rest", "idx", "visited'", "done'", "rest'", "allocTop@loop"} {
+		for _, n := range []string{"visited", "done", "rest", "idx", "ranged", "visited'", "done'", "rest'", "allocTop@loop"} {
 			if v, ok := saved[n]; ok {
 				st.ghosts[n] = v
 			} else {
@@ -327,6 +327,9 @@ func (e *Exec) execRange(s *ast.RangeStmt, label string, st *State, ctx *Ctx, k 
 
 	// 1. invariants hold on entry
 	init := st.clone()
+	if coll != "" {
+		e.setGhost(init, li, "ranged", coll)
+	}
 	if hasVisited {
 		e.setGhost(init, li, "visited", "emptySet")
 	}
@@ -350,6 +353,9 @@ func (e *Exec) execRange(s *ast.RangeStmt, label string, st *State, ctx *Ctx, k 
 	// 2. arbitrary iteration: havoc, assume invariants
 	head := st.clone()
 	e.havoc(head, vars, fields)
+	if coll != "" {
+		e.setGhost(head, li, "ranged", coll)
+	}
 	var visited, done, rest, idx string
 	if hasVisited {
 		visited = e.fresh(head, "visited", "(Array String Bool)")
